@@ -56,6 +56,12 @@ Theorem C20_chain_ideal_partial : forall (A : Type) h order (a : A),
 Proof. exact (@chain_run_ideal_l). Qed.
 Print Assumptions C20_chain_ideal_partial.
 
+(* the same including get_function_extender's case split (no / one bare / chained extenders) *)
+Theorem C20_run_ideal_partial : forall (A : Type) h order (a : A), kf_raise_after (matching h order) = false ->
+  run_wrapped h order (wrapped (Ok a)) = ideal_run_wrapped h order (Ok a).
+Proof. exact (@run_ideal_l). Qed.
+Print Assumptions C20_run_ideal_partial.
+
 (* the ideal computation satisfies the trace-level property *)
 Theorem C20_ideal_sees_once : forall es ok, NoDup (map eid es) -> sees_once es ok (ideal_trace es ok).
 Proof. exact ideal_sees_once_l. Qed.
@@ -121,16 +127,19 @@ Theorem C20_single_raiser_loses_call :
 Proof. exact single_raiser_loses_call_l. Qed.
 Print Assumptions C20_single_raiser_loses_call.
 
-(* 6. every step of a plan of any length: with pass-through extenders all wrapped calls of the plan happen, and
+(* 6. every step of a plan of any length (fails c = the wrapped function of call c raises): with pass-through
+      extenders and no failing wrapped function all wrapped calls of the plan happen, and
       extender e is entered exactly once in call c if it declares c's kind, and not at all otherwise *)
-Theorem C20_all_calls_run : forall order cs, (forall e, In e order -> beh e = Pass) ->
-  map fst (fst (run_calls order cs)) = cs /\ snd (run_calls order cs) = false.
+Theorem C20_all_calls_run : forall order fails cs, (forall e, In e order -> beh e = Pass) ->
+  (forall c, In c cs -> fails c = false) ->
+  map fst (fst (run_calls order fails cs)) = cs /\ snd (run_calls order fails cs) = false.
 Proof. exact all_calls_run_l. Qed.
 Print Assumptions C20_all_calls_run.
 
-Theorem C20_every_declared_call_seen : forall order cs e c t,
-  (forall x, In x order -> beh x = Pass) -> NoDup (map eid order) -> In e order ->
-  In (c, t) (fst (run_calls order cs)) ->
+Theorem C20_every_declared_call_seen : forall order fails cs e c t,
+  (forall x, In x order -> beh x = Pass) -> (forall c, In c cs -> fails c = false) ->
+  NoDup (map eid order) -> In e order ->
+  In (c, t) (fst (run_calls order fails cs)) ->
   enters (eid e) t = if declares e c then 1 else 0.
 Proof. exact every_declared_call_seen_l. Qed.
 Print Assumptions C20_every_declared_call_seen.
@@ -150,7 +159,7 @@ Example C20_examples :
   run_wrapped HCalc ex_set (wrapped (Ok 7)) =
     ([Enter 0; Logged 0; Enter 1; Enter 3; Enter 2; Call; Exit 2; Exit 3; Exit 1], Ok 7) /\
   fst (run_calls (map (fun e => {| eid := eid e; prio := prio e; hooks := hooks e; beh := Pass |}) ex_set)
-                 (plan_calls 0 [false; true])) =
+                 (fun _ => false) (plan_calls 0 [false; true])) =
     [ ((0, KCalculate), [Enter 0; Enter 1; Enter 3; Enter 2; Call; Exit 2; Exit 3; Exit 1; Exit 0]);
       ((0, KValidateOutput), [Enter 3; Call; Exit 3]);
       ((1, KValidateInput), [Enter 4; Enter 2; Call; Exit 2; Exit 4]);
